@@ -19,6 +19,8 @@ R04.1 panic-site inventory (per function and kind, against ref/panic_sites.json)
 tree-builder sites; R04.3 no non-consuming cycle in either tokenizer, eof_step acyclic with a single EOF leaf;
 R04.4 recursion: strongly connected components of the call graph; R04.5 all input consumed (run/feed/eat/end normal
 forms); R04.6 reviewed normal forms of the drivers' finish paths.
+R04.7 inventory and per-token acyclicity of the tree builder's non-consuming transfers; R04.8 xml5ever 'phase Main => open
+elements non-empty'.
 """
 ASSUMPTIONS = ["a contract-abiding sink", "inputs below the 4 GB tendril limit", "no allocation failure"]
 CRATES = ("html5ever", "xml5ever", "markup5ever", "markup5ever_rcdom", "tendril")
